@@ -51,7 +51,7 @@ def behaviours(chk, stage, n_per_worker, depth, opts=None, validate=True):
         return
     rnd = random.Random('%s|%s' % (stage, chk.seed))
     jobs = []
-    for e in res.emitted:
+    for e in sorted(res.emitted, key=lambda e: json.dumps(e, sort_keys=True)):
         jobs.append(({'cfg': e['cfg'], 'init': e.get('init', SIM_INIT), 'hist': e['hist']}, rnd.randrange(1 << 30), opts or {}))
     results = tt.run_behaviours(jobs)
     steps = []
